@@ -37,7 +37,9 @@ SEARCH_RULE = ('DKW band eps_n = sqrt(ln(2/delta)/(2n)), delta = 1e-9.  Required
                'cell `beta@unit` whose generating support is a proper sub-interval of (0,1)); the generating '
                'parameters of a cell are a FIXED design (independent of VERIF_SEED), the samples depend on the seed.  '
                'Statistical part only in the thorough tier / when an obligation is broken; the quick tier runs the '
-               'deterministic oracles (exact estimators, param maps, KDE density = kernel estimate, supports, TruncatedGaussian with '
+               'deterministic oracles (exact estimators, param maps, KDE density = kernel estimate - also after the caller '
+               'overwrites the training array in place -, supports, 4 moderately U-shaped Beta samples (n = 5000, every dataset '
+               'within 2 eps\'_n), TruncatedGaussian with '
                'user bounds equal to 0, fitted Beta support not wider than 3x the data range for data inside (0,1))')
 PARTIAL = ['consistency_partial: the DKW-band closeness of the fitted CDF to the generating/empirical CDF is a statistical '
            'statement about the sample and scipy\'s optimisers (fmin for the MLE families, SLSQP for TruncatedGaussian); no Lean '
@@ -488,8 +490,13 @@ def tie_kde(ctx, lean):
         ss = rng.choice([None, None, n if weighted else rng.choice([5, 17, n, 2 * n])])
         m = gk.GaussianKDE(sample_size=ss, bw_method=bw, weights=w)
         m.fit(X)
+        x0 = float(X[0])
+        if i % 2:            # history: the caller reuses its buffer in place after the fit; the model must not notice
+            X *= 0.5
+            X += scale
+            ctx.count('kde.history.caller-overwrites-training-array')
         ds = np.ravel(np.asarray(m._params['dataset'], dtype=float))
-        ctx.case(('kde', str(bw), weighted, ss, n, float(X[0])))
+        ctx.case(('kde', str(bw), weighted, ss, n, x0))
         ctx.count(f'kde.bw={bw if bw is None or isinstance(bw, str) else "scalar"}.w={weighted}.ss={"set" if ss else "none"}')
         if len(ds) != (ss or n):
             bad_model = bad_model or {'bw': bw, 'weighted': weighted, 'sample_size': ss, 'n': n, 'stored': len(ds)}
@@ -580,6 +587,8 @@ def fixed_design(family, k):
             p.update(loc=loc, scale=r.uniform(0.05, min(0.35, 0.95 - loc)), shapes=[lognu(r, 0.5, 10), lognu(r, 0.5, 10)])
         elif family == 'beta@unit-moderate':   # same, bell-shaped members only (quick support-width oracle)
             p.update(loc=r.uniform(0.05, 0.6), scale=r.uniform(0.05, 0.2), shapes=[lognu(r, 1.5, 4), lognu(r, 1.5, 4)])
+        elif family == 'beta@U-shaped':        # a, b < 1, support starting at 0 (scipy's default start fails here)
+            p.update(loc=0.0, scale=r.choice([1.0, 1.0, 0.1, 25.0]), shapes=[r.uniform(0.2, 0.9), r.uniform(0.2, 0.9)])
         elif family == 'logLaplace@origin':
             p.update(loc=0.0, scale=lognu(r, 0.1, 10), shapes=[lognu(r, 1, 8)])
         elif family == 'gaussian':
@@ -594,9 +603,10 @@ def fixed_design(family, k):
     return out
 
 
-SCIPY_OF = {'beta': 'beta', 'beta@unit': 'beta', 'beta@unit-moderate': 'beta', 'gamma': 'gamma', 'studentT': 't', 'logLaplace': 'loglaplace', 'logLaplace@origin': 'loglaplace',
+SCIPY_OF = {'beta': 'beta', 'beta@U-shaped': 'beta', 'beta@U-quick': 'beta', 'beta@unit': 'beta', 'beta@unit-moderate': 'beta', 'gamma': 'gamma', 'studentT': 't', 'logLaplace': 'loglaplace', 'logLaplace@origin': 'loglaplace',
             'gaussian': 'norm', 'uniform': 'uniform', 'truncated': 'truncnorm'}
-CLASS_OF = {'beta': 'BetaUnivariate', 'beta@unit': 'BetaUnivariate', 'beta@unit-moderate': 'BetaUnivariate', 'gamma': 'GammaUnivariate', 'studentT': 'StudentTUnivariate', 'logLaplace': 'LogLaplace',
+CLASS_OF = {'beta': 'BetaUnivariate', 'beta@U-shaped': 'BetaUnivariate', 'beta@U-quick': 'BetaUnivariate',
+            'beta@unit': 'BetaUnivariate', 'beta@unit-moderate': 'BetaUnivariate', 'gamma': 'GammaUnivariate', 'studentT': 'StudentTUnivariate', 'logLaplace': 'LogLaplace',
             'logLaplace@origin': 'LogLaplace', 'gaussian': 'GaussianUnivariate', 'uniform': 'UniformUnivariate',
             'truncated': 'TruncatedGaussian'}
 
@@ -628,7 +638,7 @@ def fit_one(family, p, X):
 def support_check(family, p, m, kw, X):
     """bounded families: no mass outside the fitted support -> None or (what, observed)"""
     with np.errstate(all='ignore'):
-        if family in ('beta', 'beta@unit', 'beta@unit-moderate', 'uniform'):
+        if family.startswith('beta') or family == 'uniform':
             loc, scale = float(m._params['loc']), float(m._params['scale'])
             d = 1e-9 * max(abs(scale), abs(loc) * 1e-3, 1e-300)
             lo, hi = m.cumulative_distribution(np.array([loc - d, loc + scale + d]))
@@ -920,6 +930,72 @@ def beta_unit_width_oracle(ctx, seed, deep):
     return checked
 
 
+U_QUICK = [(0.5, 0.35), (0.45, 0.45), (0.35, 0.5), (0.4, 0.6), (0.5, 0.5)]
+
+
+def beta_u_shaped_oracle(ctx, seed, deep):
+    """moderately U-shaped Beta members on [0, 1] (a, b in [0.35, 0.6]), n = 5000: the data-driven start makes scipy's MLE
+    reliable here (clean tree: sup distances <= 0.025 over 200 fits), so EVERY dataset must give
+    sup|F_fit - F_true| <= 2 eps'_n and sup|F_fit - ECDF| <= 2 eps'_n (eps'_5000 = 0.0276)."""
+    checked = 0
+    n = 5000
+    for idx, (a, b) in enumerate(U_QUICK if deep else U_QUICK[:4]):
+        p = {'loc': 0.0, 'scale': 1.0, 'shapes': [a, b]}
+        X = draw(seed, 'beta@U-quick', idx, n, p)
+        res = dkw_eval('beta@U-quick', p, X, rule='cell')
+        checked += 1
+        ctx.count('dkw.beta@U-quick')
+        inp = {'family': 'beta@U-quick', 'design_index': idx, 'params': p, 'n': n, 'seed': seed}
+        e = band_d(n)
+        if res.get('exc') or not (res['d_true'] <= 2 * e and res['d_emp'] <= 2 * e):
+            ctx.fail_input('BetaUnivariate.fit', inp, {k: res.get(k) for k in ('d_true', 'd_emp', 'params', 'exc')},
+                           f'U-shaped Beta({a}, {b}) on [0, 1], n = {n}: sup|F_fit - F_true| and sup|F_fit - ECDF| <= {2 * e:.4f}',
+                           'BetaUnivariate.fit:dkw:U-shaped')
+    return checked
+
+
+def kde_alias_oracle(ctx, seed, deep):
+    """history: the fitted density must not depend on what the caller does to the training array afterwards."""
+    r = vc.rng_for(seed, 'C04', 'kde-alias')
+    rs = vc.np_rng(seed, 'C04', 'kde-alias')
+    checked = 0
+    for j in range(6 if deep else 3):
+        n = r.choice([20, 80, 200])
+        X = rs.normal(r.uniform(-5, 5), lognu(r, 0.1, 10), size=n)
+        X2 = rs.uniform(-3, 3, size=n) * lognu(r, 0.1, 10)
+        bw = [None, 'silverman', 0.4][j % 3]
+        w = rs.uniform(0.1, 1.0, size=n) if j % 2 else None
+        checked += kde_alias_one(ctx, {'X': X.tolist(), 'X_overwrite': X2.tolist(), 'bw_method': bw,
+                                       'weights': None if w is None else w.tolist()})
+    return checked
+
+
+def kde_alias_one(ctx, inp):
+    from copulas.univariate import GaussianKDE
+    orig = np.asarray(inp['X'], dtype=float)
+    X = orig.copy()
+    w = None if inp['weights'] is None else np.asarray(inp['weights'], dtype=float)
+    m = GaussianKDE(bw_method=inp['bw_method'], weights=w)
+    m.fit(X)
+    _, h, _ = np_kernel_estimate(orig, inp['bw_method'], w, [0.0])
+    r = random.Random(len(orig))
+    probes = np.array([float(orig[r.randrange(len(orig))]) + r.uniform(-3, 3) * h for _ in range(6)])
+    d0 = np.asarray(m.probability_density(probes), dtype=float).copy()
+    c0 = np.asarray(m.cumulative_distribution(probes), dtype=float).copy()
+    X[:] = np.asarray(inp['X_overwrite'], dtype=float)          # the caller reuses its buffer, in place
+    d1 = np.asarray(m.probability_density(probes), dtype=float)
+    c1 = np.asarray(m.cumulative_distribution(probes), dtype=float)
+    _, _, want = np_kernel_estimate(orig, inp['bw_method'], w, probes)
+    ok = np.array_equal(d0, d1) and np.array_equal(c0, c1) and all(close(a, b, 1e-9, 1e-290) for a, b in zip(d1, want))
+    if not ok:
+        ctx.fail_input('GaussianKDE.probability_density', inp,
+                       {'probes': probes.tolist(), 'density_before': d0.tolist(), 'density_after_overwrite': d1.tolist(),
+                        'cdf_before': c0.tolist(), 'cdf_after_overwrite': c1.tolist()},
+                       f'density unchanged (bitwise) after the caller overwrites the training array in place, and equal to the '
+                       f'kernel estimate of the ORIGINAL training data {want.tolist()}', 'GaussianKDE.fit:model-aliases-caller-array')
+    return 1
+
+
 def binom_tail(passes, n_cell):
     """P(Bin(N, 0.8) <= passes): the cell is a violation iff this is <= DELTA"""
     return float(stats.binom.cdf(passes, n_cell, 0.8))
@@ -964,6 +1040,8 @@ def search(ctx, deep, seed=None):
                 cells[f'{family}/n={n}'][1] += bool(res['ok'])
     checked += trunc_zero_bounds_oracle(ctx, seed, deep)
     checked += beta_unit_width_oracle(ctx, seed, deep)
+    checked += beta_u_shaped_oracle(ctx, seed, deep)
+    checked += kde_alias_oracle(ctx, seed, deep)
     # --- bounded scipy-MLE family: support of the fitted Beta (deterministic)
     if not deep:
         for idx, p in enumerate(fixed_design('beta', 4)):
@@ -980,7 +1058,7 @@ def search(ctx, deep, seed=None):
     ka, kf = kde_dkw(ctx, seed, deep, ns)
     checked += ka
     # --- >= 80 % of the datasets of a cell: scipy generic MLE
-    for family in ('beta', 'beta@unit', 'gamma', 'studentT', 'logLaplace@origin', 'logLaplace'):
+    for family in ('beta', 'beta@unit', 'beta@U-shaped', 'gamma', 'studentT', 'logLaplace@origin', 'logLaplace'):
         design = fixed_design(family, 40)
         for n in ns:
             passed, worst = 0, []
@@ -1003,7 +1081,8 @@ def search(ctx, deep, seed=None):
             # pass rate is < 80 % with false-alarm probability <= DELTA (exact binomial tail)
             if (passed < 0.8 * len(design)) if shifted else (tail <= DELTA):
                 key = f'{CLASS_OF[family]}.fit:dkw-80%' + (':shifted-data' if shifted else '') + \
-                    (':data-inside-unit-interval' if family == 'beta@unit' else '')
+                    (':data-inside-unit-interval' if family == 'beta@unit' else '') + \
+                    (':U-shaped' if family == 'beta@U-shaped' else '')
                 ctx.fail_input(f'{CLASS_OF[family]}.fit', {'family': family, 'n': n, 'seed': seed, 'datasets': len(design)},
                                {'passed': passed, 'of': len(design), 'binomial_tail': tail, 'band': band_d(n), 'failing': worst[:6]},
                                'fitted CDF within the DKW band of the generating and empirical CDF for >= 80 % of the datasets of '
@@ -1017,7 +1096,9 @@ def replay(ctx, payload):
     cls = payload.get('class', '')
     inp = payload.get('input', {})
     before = len(ctx.failing)
-    if cls.startswith('GaussianKDE.fit:') and 'X' in inp:
+    if cls == 'GaussianKDE.fit:model-aliases-caller-array' and 'X_overwrite' in inp:
+        kde_alias_one(ctx, inp)
+    elif cls.startswith('GaussianKDE.fit:') and 'X' in inp:
         kde_oracle_one(ctx, inp)
     elif 'X' in inp and cls.split(':')[0] in ('GaussianUnivariate.fit', 'UniformUnivariate.fit'):
         closed_oracle_one(ctx, np.asarray(inp['X'], dtype=float))
